@@ -158,8 +158,6 @@ theorem query_step (fl : QFlags) (from_ : List Src) (withs : List (Str × Src)) 
   rw [renderQuery_eq_1]
   have hk : ∀ ns, (queryCtx k fl ns).sq = some '\'' := fun ns => queryCtx_sq hq fl ns
   have hd : (dialectCtx k fl).sq = some '\'' := dialectCtx_sq hq fl
-  split
-  · exact All_nil
   · extract_lets k' kd withDoc selTerms selectDoc fromDoc joinsDoc whereDoc head body core dupDoc conflictDoc returningDoc
     have hk' : k'.sq = some '\'' := hk _
     have hkd : kd.sq = some '\'' := hd
@@ -215,8 +213,7 @@ theorem str_uniform_all :
     (motive_17 := fun _ ws => QL (renderWiths · ws))
     (motive_18 := fun _ obs => QL (renderOrd · obs))
     (motive_19 := fun _ ws => QL (renderWhens · ws))
-  case case41 =>
-    intros; simp only [QD]; intro k hq; rw [renderQuery_eq_1]; simp_all
+  case case41 => intros; apply query_step <;> assumption
   case case42 => intros; apply query_step <;> assumption
   case case43 => intros; apply query_step <;> assumption
   case case44 => intros; apply query_step <;> assumption
@@ -224,7 +221,6 @@ theorem str_uniform_all :
   case case46 => intros; apply query_step <;> assumption
   case case47 => intros; apply query_step <;> assumption
   case case48 => intros; apply query_step <;> assumption
-  case case49 => intros; apply query_step <;> assumption
   all_goals (
     intros
     simp only [QD, QL, QP] at *
@@ -269,7 +265,8 @@ theorem str_uniform_all :
   case case37 => simp_all
   case case38 => simp_all
   case case40 => simp_all
-  case case51 => simp_all
+  case case50 => simp_all
+  case case52 => simp_all
   case case53 => simp_all
   case case54 => simp_all
   case case55 => simp_all
@@ -278,8 +275,8 @@ theorem str_uniform_all :
   case case58 => simp_all
   case case59 => simp_all
   case case60 => simp_all
-  case case61 => simp_all
-  case case63 => simp_all
+  case case62 => simp_all
+  case case64 => simp_all
   case case65 => simp_all
   case case66 => simp_all
   case case67 => simp_all
@@ -293,18 +290,17 @@ theorem str_uniform_all :
   case case75 => simp_all
   case case76 => simp_all
   case case77 => simp_all
-  case case78 => simp_all
   case case23 => simp_all <;> (repeat' (split <;> try simp_all)) <;> (repeat' (first | apply And.intro | intro _)) <;> (first | assumption | (apply_assumption <;> simp))
   case case39 => simp_all <;> (repeat' (split <;> try simp_all))
-  case case62 => simp_all <;> (repeat' (split <;> try simp_all))
-  case case64 => simp_all <;> (repeat' (split <;> try simp_all))
-  case case50 =>
+  case case61 => simp_all <;> (repeat' (split <;> try simp_all))
+  case case63 => simp_all <;> (repeat' (split <;> try simp_all))
+  case case49 =>
     have hs := fun fl => setopCtx_sq (c := _) (by simpa using hq) fl
     simp only [sq_eq] at hs
     simp_all <;> (repeat' (split <;> try simp_all)) <;>
       (repeat' (first | apply And.intro | intro _)) <;> (first | assumption | exact hs _ | (apply_assumption <;> first | exact hs _ | simp))
-  case case52 => rename_i ua _ _ ; cases ua <;> simp_all
-  case case79 =>
+  case case51 => rename_i ua _ _ ; cases ua <;> simp_all
+  case case78 =>
     rename_i ihq ihr _ _
     refine (All_append _ _).mpr ⟨?_, ihr _ _ hq⟩
     split
